@@ -252,7 +252,10 @@ func NewTypecast(scope *types.Scope, imports util.ImportNames, t types.Type, inn
 		// Another object of the current package that merely has the same name does not make the type local.
 		if typ.Obj().Pkg() == nil || scope.Lookup(typ.Obj().Name()) == typ.Obj() {
 			expr = typ.Obj().Name()
-		} else if pkgName, ok := imports.LookupName(typ.Obj().Pkg().Path()); ok {
+		} else if pkgName, ok := imports.LookupName(typ.Obj().Pkg().Path()); ok && pkgName == "." {
+			// Dot-imported: the name is visible without a qualifier.
+			expr = typ.Obj().Name()
+		} else if ok {
 			expr = fmt.Sprintf("%v.%v", pkgName, typ.Obj().Name())
 		} else {
 			expr = fmt.Sprintf("%v.%v", typ.Obj().Pkg().Name(), typ.Obj().Name())
